@@ -11,7 +11,8 @@
   STRING converts it; under the value-header layout the converted bytes are stored where no reader looks, i.e. the
   string's bits are lost (`C08Bit_legacy_string_lost_witness`; they survive under local_deletion).
 -/
-import ZanVerif.Data.BitRead
+import ZanVerif.Data.BitSize
+import ZanVerif.Props.C12
 
 namespace Z.Props.C08Bit
 open Z.BitExec Z.Header
@@ -33,7 +34,7 @@ theorem C08Bit_setbit_live (pol : Pol) {m : List KV} (W : WF m) (ts : Int) (tabl
         getbit pol m' t table rk o = if o = offset then .ok on else getbit pol m ts table rk o := by
   have hlive := bmeta_live_notExist pol m ts table rk h ex size0 hm
   have hH : wHdr pol h ex ts = h := by unfold wHdr; rw [if_neg (by rw [hlive]; simp)]
-  obtain ⟨m', size2, heq, _, hge, hmeta, hbits, _, hwf⟩ :=
+  obtain ⟨m', size2, heq, _, hge, _, hmeta, hbits, _, hwf⟩ :=
     setbit_spec pol W.sorted ts table rk offset on ht hts hv ho h ex size0 true hm (Or.inl rfl)
   rw [hH] at heq hmeta hbits
   obtain ⟨W', hle⟩ := hwf W
@@ -42,6 +43,8 @@ theorem C08Bit_setbit_live (pol : Pol) {m : List KV} (W : WF m) (ts : Int) (tabl
   · intro t hex o hob
     have hok := mview_hdrOk pol m ts table rk h ex (bmeta_mview pol m ts table rk h ex size0 true hm)
     have hs0 := bmeta_size_in pol m ts table rk h ex size0 true hm
+    have hst : startSize size0 true = size0 := rfl
+    rw [hst] at hge hle
     have hsz : inI64 size2 := by unfold inI64 at *; omega
     have hm' := bmeta_of_written pol m' table rk h size2 ts hok hsz hmeta t
     rw [hex] at hm'
@@ -57,38 +60,60 @@ theorem C08Bit_aux_expiredAt_renew (pol : Pol) (h : Hdr) (ts t : Int) : expiredA
   · exact isExpired_zero _ t rfl
   · rfl
 
+/-- the size a never-used key gets from `SETBIT key offset …`: the end of the one segment written -/
+def freshSize (offset : Nat) : Int := Gen.bitSetIndex (offset : Int) + ((byteOffOf (offset : Int) : Nat) : Int) + 1
+
 /-- **SETBIT on a dead bitmap (C10)**: the bitmap is absent or expired at the log time, no string is stored under its
     name, and the generation it starts is fresh (no stored segment carries it: always true for a log timestamp above every
     earlier one; see the known finding "generation = timestamp" otherwise). Then the reply is 0 — whatever the dead
-    generation held —, and afterwards GETBIT reads the new bit at `offset` and 0 everywhere else, at every read time. -/
+    generation held —; afterwards GETBIT reads the new bit at `offset` and 0 everywhere else, at every read time; and every
+    reader decodes a live bitmap without expiry whose size is the size a NEVER-USED key gets (`freshSize`: nothing of the dead
+    generation's size survives, fix 0ad0963), which covers the one stored segment (`SizeOK`). -/
 theorem C08Bit_setbit_dead (pol : Pol) {m : List KV} (W : WF m) (ts : Int) (table rk : Bytes) (offset : Nat) (on : Int)
     (ht : table.length < 65536) (hts : inI64 ts) (hv : on = 0 ∨ on = 1) (ho : (offset : Int) ≤ 4294967294)
     (h : Hdr) (ex : Bool) (size0 : Int) (hm : bmeta pol m ts table rk = .mk h ex size0 false) (hdead : notExist h ex = true)
     (hstr : get m (strK table rk) = none)
     (hfresh : ∀ idx, get m (segK table (vkey pol rk (renewH pol h ts).ver) idx) = none) :
     ∃ m', setbit pol m ts table rk offset on = (m', .ok 0) ∧ WF m' ∧
-      ∀ t, ∀ o : Nat, o < 9223372036854775808 → getbit pol m' t table rk o = if o = offset then .ok on else .ok 0 := by
+      (∀ t, ∀ o : Nat, o < 9223372036854775808 → getbit pol m' t table rk o = if o = offset then .ok on else .ok 0) ∧
+      (∀ t, bmeta pol m' t table rk =
+        .mk { renewH pol h ts with user := some (metaUser (freshSize offset) ts) } false (freshSize offset) true) ∧
+      SizeOK pol m' table rk := by
   have hH : wHdr pol h ex ts = renewH pol h ts := by unfold wHdr; rw [if_pos hdead]
-  obtain ⟨m', size2, heq, _, hge, hmeta, hbits, _, hwf⟩ :=
+  obtain ⟨m', size2, heq, _, hge, hs2, hmeta, hbits, _, hwf⟩ :=
     setbit_spec pol W.sorted ts table rk offset on ht hts hv ho h ex size0 false hm (Or.inr hstr)
-  rw [hH] at heq hmeta hbits
+  rw [hH] at heq hmeta hbits hs2
   obtain ⟨W', hle⟩ := hwf W
   have hzero : ∀ o, genBit m table (vkey pol rk (renewH pol h ts).ver) o = false := by
     intro o; unfold genBit byteAt; rw [hfresh]; simp [testBit_zero]
-  refine ⟨m', ?_, W', ?_⟩
+  have hsize : size2 = freshSize offset := by
+    rw [hs2, hfresh]
+    exact sizeAfter_fresh (offset : Int) (by omega)
+  have hok := renewH_ok pol h ts (mview_hdrOk pol m ts table rk h ex (bmeta_mview pol m ts table rk h ex size0 false hm)) hts
+  have hfs : inI64 (freshSize offset) := by
+    have hb := byteOffOf_lt (offset : Int) (by omega)
+    unfold freshSize inI64
+    rw [setIndex_eq (offset : Int) (by omega), segBytes_val]
+    omega
+  have hbm : ∀ t, bmeta pol m' t table rk =
+      .mk { renewH pol h ts with user := some (metaUser (freshSize offset) ts) } false (freshSize offset) true := by
+    intro t
+    have hm' := bmeta_of_written pol m' table rk (renewH pol h ts) (freshSize offset) ts hok hfs (by rw [← hsize]; exact hmeta) t
+    rw [C08Bit_aux_expiredAt_renew] at hm'
+    exact hm'
+  refine ⟨m', ?_, W', ?_, hbm, ?_⟩
   · rw [heq, hzero]; rfl
   · intro t o hob
-    have hok := renewH_ok pol h ts (mview_hdrOk pol m ts table rk h ex (bmeta_mview pol m ts table rk h ex size0 false hm)) hts
-    have hs0 := bmeta_size_in pol m ts table rk h ex size0 false hm
-    have hsz : inI64 size2 := by unfold inI64 at *; omega
-    have hm' := bmeta_of_written pol m' table rk (renewH pol h ts) size2 ts hok hsz hmeta t
-    rw [C08Bit_aux_expiredAt_renew] at hm'
-    rw [getbit_live pol m' t table rk _ _ _ hm' o]
+    rw [getbit_live pol m' t table rk _ _ _ (hbm t) o]
     show BOut.ok (if genBit m' table (vkey pol rk (renewH pol h ts).ver) o = true then 1 else 0) = _
     rw [hbits o hob, hzero]
     by_cases he : o = offset
     · rw [if_pos he, if_pos he, C08Bit_aux_bit_reply _ on hv rfl]
     · rw [if_neg he, if_neg he]; rfl
+  · have := SizeOK_setbit_self pol W ts table rk offset on ht hts hv ho h ex size0 false hm (Or.inr hstr)
+      (by intro j v _ hg; rw [hH, hfresh] at hg; cases hg)
+    rw [heq] at this
+    exact this
 
 /-- **other bitmaps are untouched** (C12): after a SETBIT that converts no legacy string, GETBIT, the prescribed BITCOUNT,
     BKEYEXIST and BTTL of every OTHER bitmap key answer what they answered before, at every read time, for every offset
@@ -102,7 +127,7 @@ theorem C08Bit_setbit_other_bitmaps (pol : Pol) {m : List KV} (hs : Sorted m) (t
     (∀ a b, bitcountSpec pol (setbit pol m ts table rk offset on).1 now table' rk' a b = bitcountSpec pol m now table' rk' a b) ∧
     bkeyexist pol (setbit pol m ts table rk offset on).1 now table' rk' = bkeyexist pol m now table' rk' ∧
     bttl pol (setbit pol m ts table rk offset on).1 now table' rk' = bttl pol m now table' rk' := by
-  obtain ⟨m', size2, heq, _, _, _, _, hframe, _⟩ :=
+  obtain ⟨m', size2, heq, _, _, _, _, _, hframe, _⟩ :=
     setbit_spec pol hs ts table rk offset on ht hts hv ho h ex size0 ok hm hnc
   rw [heq]
   exact reads_congr pol m m' table' rk'
@@ -116,7 +141,7 @@ theorem C08Bit_setbit_other_types (pol : Pol) {m : List KV} (hs : Sorted m) (ts 
     (hnc : ok = true ∨ get m (strK table rk) = none)
     (x : Bytes) (h1 : x.head? ≠ some Gen.cBitmapType) (h2 : x.head? ≠ some Gen.cBitmapMetaType) :
     get (setbit pol m ts table rk offset on).1 x = get m x := by
-  obtain ⟨m', size2, heq, _, _, _, _, hframe, _⟩ :=
+  obtain ⟨m', size2, heq, _, _, _, _, _, hframe, _⟩ :=
     setbit_spec pol hs ts table rk offset on ht hts hv ho h ex size0 ok hm hnc
   rw [heq]
   apply hframe
@@ -141,6 +166,14 @@ theorem C08Bit_setbit_guards (pol : Pol) (m : List KV) (ts : Int) (table rk : By
 theorem C08Bit_getbit_dead_zero (pol : Pol) (m : List KV) (now : Int) (table rk : Bytes) (h : Hdr) (ex : Bool) (size : Int)
     (hm : bmeta pol m now table rk = .mk h ex size false) (hstr : strGet pol m now table rk = .ok none) (o : Int) :
     getbit pol m now table rk o = .ok 0 := getbit_dead pol m now table rk h ex size hm hstr o
+
+theorem C08Bit_aux_get_none {m : List KV} {k : Bytes} (h : ∀ p ∈ m, p.1 ≠ k) : get m k = none := by
+  induction m with
+  | nil => rfl
+  | cons a t ih =>
+    simp only [Z.Ref.get]
+    rw [if_neg (h a List.mem_cons_self)]
+    exact ih (fun p hp => h p (List.mem_cons_of_mem _ hp))
 
 /-! ### witnesses and non-vacuity: concrete runs with the real codec (table "t", keys "b", "b:x") -/
 section Example
@@ -185,7 +218,7 @@ set_option maxRecDepth 100000 in
     zero segment and the meta are written, the reply is 0) -/
 example : ∃ m', setbit .compact [] wTs wT wK ((77 : Nat) : Int) 0 = (m', .ok 0) ∧ WF m' ∧
     ∀ o : Nat, o < 9223372036854775808 → getbit .compact m' (wTs + 9) wT wK o = if o = 77 then .ok 0 else .ok 0 := by
-  obtain ⟨m', h1, h2, h3⟩ := C08Bit_setbit_dead .compact WF.nil wTs wT wK 77 0 (by decide)
+  obtain ⟨m', h1, h2, h3, _⟩ := C08Bit_setbit_dead .compact WF.nil wTs wT wK 77 0 (by decide)
     (by unfold inI64 wTs; omega) (Or.inl rfl) (by decide) fresh false 0 (by decide) (by decide) (by decide) (fun _ => rfl)
   exact ⟨m', h1, h2, fun o ho => h3 (wTs + 9) o ho⟩
 
@@ -210,19 +243,48 @@ theorem C08Bit_legacy_string_lost_witness :
     getbit .local (str .local) (wTs + 1) wT wK 0 = .ok 1 ∧
     getbit .local (setbit .local (str .local) (wTs + 1) wT wK 9 1).1 (wTs + 2) wT wK 0 = .ok 1 := by decide
 set_option maxRecDepth 100000 in
-/-- **witness (C10: an expired bitmap is not quite "as if absent")**: `SETBIT b 8192 1 @t; BEXPIRE b 1 @t; SETBIT b 0 1 @t+3s`
-    — the write starts a new generation (bit 8192 reads 0 again), but the EXPIRED meta hands its size (1025) on:
-    `BITCOUNT b -1 -1` looks at byte 1024 and answers 0, where the same SETBIT on a never-used key gives size 1 and answers 1.
-    (`getBitmapMeta` returns the size of an expired meta with ok = false and `BitSetV2` keeps it.) -/
-theorem C08Bit_expired_size_survives_witness :
+/-- **regression (defect repaired by 0ad0963; C10: an expired bitmap is "as if absent")**: `SETBIT b 8192 1 @t; BEXPIRE b 1 @t;
+    SETBIT b 0 1 @t+3s` — the write starts a new generation (bit 8192 reads 0 again) of size 1, exactly like the same SETBIT
+    on a never-used key: `BITCOUNT b -1 -1` answers 1 on both (before the fix the expired size 1025 survived and the answer
+    was 0), and the two stores decode to the same size. -/
+theorem C08Bit_expired_size_reset :
     let s1 := (setbit .compact [] wTs wT wK 8192 1).1
     let s2 := (bexpire s1 wTs wT wK 1).1
     let s3 := (setbit .compact s2 (wTs + 3000000000) wT wK 0 1).1
     let f := (setbit .compact [] (wTs + 3000000000) wT wK 0 1).1
     (setbit .compact s2 (wTs + 3000000000) wT wK 0 1).2 = .ok 0 ∧
     getbit .compact s3 (wTs + 4000000000) wT wK 8192 = .ok 0 ∧ getbit .compact s3 (wTs + 4000000000) wT wK 0 = .ok 1 ∧
-    bitcountSpec .compact s3 (wTs + 4000000000) wT wK (-1) (-1) = .ok 0 ∧ bitcount .compact s3 (wTs + 4000000000) wT wK (-1) (-1) = .ok 0 ∧
-    bitcountSpec .compact f (wTs + 4000000000) wT wK (-1) (-1) = .ok 1 := by decide
+    bitcountSpec .compact s3 (wTs + 4000000000) wT wK (-1) (-1) = .ok 1 ∧ bitcount .compact s3 (wTs + 4000000000) wT wK (-1) (-1) = .ok 1 ∧
+    bitcount .compact f (wTs + 4000000000) wT wK (-1) (-1) = .ok 1 ∧
+    bmeta .compact s3 (wTs + 4000000000) wT wK = bmeta .compact f (wTs + 4000000000) wT wK := by decide
+
+set_option maxRecDepth 100000 in
+/-- the hypotheses of `C08Bit_setbit_dead` hold for an EXPIRED bitmap of a reachable store (generation wTs expired at wTs+3s,
+    the new generation wTs+3s is fresh); its conclusion: size `freshSize 0 = 1` -/
+example : ∃ m', setbit .compact (bexpire (setbit .compact [] wTs wT wK 8192 1).1 wTs wT wK 1).1 (wTs + 3000000000) wT wK ((0 : Nat) : Int) 1 = (m', .ok 0) ∧
+    bmeta .compact m' (wTs + 4000000000) wT wK = .mk ⟨0, wTs + 3000000000, some (metaUser 1 (wTs + 3000000000))⟩ false 1 true ∧
+    SizeOK .compact m' wT wK := by
+  have W : WF (bexpire (setbit .compact [] wTs wT wK 8192 1).1 wTs wT wK 1).1 :=
+    (WF.nil.setbit .compact _ wT wK _ _ (by decide) (by intro v h; cases h)).bexpire _ _ _ _
+  obtain ⟨m', h1, _, _, h4, h5⟩ := C08Bit_setbit_dead .compact W (wTs + 3000000000) wT wK 0 1 (by decide)
+    (by unfold inI64 wTs; omega) (Or.inr rfl) (by decide)
+    ⟨1600000001, wTs, some (metaUser 1025 wTs)⟩ true 1025 (by decide) (by decide) (by decide)
+    (by
+      intro idx
+      apply C08Bit_aux_get_none
+      intro p hp
+      have hs : (bexpire (setbit .compact [] wTs wT wK 8192 1).1 wTs wT wK 1).1 =
+          [(segK wT (vkey .compact wK wTs) 1024, [128]), (metaK wT wK, encode ⟨1600000001, wTs, some (metaUser 1025 wTs)⟩)] := by decide
+      rw [hs] at hp
+      simp only [List.mem_cons, List.mem_nil_iff, or_false] at hp
+      rcases hp with rfl | rfl
+      · intro e
+        have := (segK_inj_tv (by decide) (by decide) e).2
+        have hv : vkey .compact wK wTs = vkey .compact wK (wTs + 3000000000) := this
+        have := Z.Props.C12.C12_verkey_injective _ _ _ _ (by unfold inI64 wTs; omega) (by unfold inI64 wTs; omega) hv
+        exact absurd this.2 (by unfold wTs; omega)
+      · exact fun e => segK_ne_metaK _ _ _ _ _ e.symm)
+  exact ⟨m', h1, h4 _, h5⟩
 end Example
 
 end Z.Props.C08Bit
